@@ -469,7 +469,10 @@ def bit_passes(draw, max_channels=MAX_CHANNELS, max_frames=200, min_frames=1, mi
     data = [draw(ibm_word_lists(frames)) for _ in range(n)]
     plain = draw(st.booleans())
     return {
-        'head': EXAMPLE_HEAD if plain else draw(st.binary(min_size=4, max_size=4)),
+        # four bytes of unknown meaning that the reader skips: anything, also what begins other formats' records (a LIS
+        # physical record header of 0x114 bytes, a storage unit label, zeros)
+        'head': EXAMPLE_HEAD if plain else draw(st.one_of(st.binary(min_size=4, max_size=4), st.sampled_from(
+            [b'\x01\x14\x00\x00', b'\x01\x14\x00\x01', b'\x00\x00\x00\x00', b'\xff\xff\xff\xff', b'   1', b'~V\r\n']))),
         'description': draw(_printable(72)),
         'unknown_a': EXAMPLE_UNKNOWN_A if plain else draw(st.binary(min_size=5, max_size=5)),
         'unknown_b': (EXAMPLE_UNKNOWN_B if plain else draw(st.binary(min_size=19, max_size=19)) + draw(_printable(56))),
